@@ -92,6 +92,7 @@ CLAIMS = {
          "no_early_exhaustion: as long as at most 99 closures are open at the same time every number is in 1..99 and the conversion to Rnum cannot fail, for any total number of rings. "
          "LIFT TO WHOLE TRAVERSALS (walk_never_out_early, Lemmas/PoolWalkL.lean): for EVERY adjacency list, if walk gives up for lack of a ring number then at least 99 ring closures are open in the events it has already handed to the follower "
          "(invariant: the numbers open in the emitted events are exactly the pool's open numbers); with C06 walk_only_panics_on_rnum and C11 this is: on a well-formed graph writing succeeds unless 99 closures are open at once. "
+         "walk_opens_with_least_number: along the events of walk on EVERY adjacency list, each ring-closure event whose number is not open at that point carries the least number >= 1 not open in what was handed over so far, and a number is free again as soon as it is closed. "
          "Tie: JoinPool driven directly through the cfg hook and through walk on ring-rich graphs.",
          "Lean 4 proof (invariant by induction over hit sequences; least-free-number and recycling theorems) + differential correspondence of JoinPool and walk", "4.13"),
  'C19': ("Theorems in Purr/Props/C19.lean: depth_le_nesting — for EVERY string the number of simultaneously live read_smiles activations (= length of the reader transducer's stack on the repaired tree) is at most "
